@@ -72,7 +72,7 @@ def run(rep, tier, seed):
     # design level: the dispatcher and the UTF-8 collector under every chunking
     p_c03.model_check(rep, "quick", os.path.join(wd, "mc"))
     p_c02.model_check(rep, "quick", os.path.join(wd, "mc2"))
-    nscripts = 400 if tier == "quick" else 4000
+    nscripts = 900 if tier == "quick" else 4000
     nrandom = 5 if tier == "quick" else 32
     scripts = []
     for si in range(nscripts):
